@@ -26,7 +26,7 @@ FACTORY = 'pyv.checks.c09:Session'
 CLIENTS = ['A', 'B', 'T']
 SERIALS = [101, 102]
 REPLY_SERIALS = [101, 102, 103]
-CALL_PAIRS = [('A', 'B'), ('A', 'T'), ('B', 'A')]
+CALL_PAIRS = [('A', 'B'), ('A', 'T'), ('B', 'A'), ('A', 'A')]
 
 POLICY = """
   <policy context="default">
@@ -40,6 +40,7 @@ POLICY = """
     <allow receive_type="method_return"/>
     <allow receive_type="error"/>
     <allow receive_type="signal"/>
+    <deny receive_type="method_call" receive_interface="c.Private"/>
     <allow send_destination="org.freedesktop.DBus" send_interface="org.freedesktop.DBus"/>
     <allow own_prefix="com.example"/>
     <allow send_destination="com.example.A"/>
@@ -88,9 +89,11 @@ class Session(BusSession):
                 for s in SERIALS:
                     ops.append(['call', x, y, s, 0])
                 ops.append(['call', x, y, SERIALS[0], 1])
+                if x != y:
+                    ops.append(['pcall', x, y, SERIALS[0]])     # passes the send rules, refused by the recipient's receive rule
         for x in CLIENTS:
             for y in CLIENTS:
-                if x != y and self.is_open(x) and self.is_open(y):
+                if (x != y or x == 'A') and self.is_open(x) and self.is_open(y):
                     for s in REPLY_SERIALS:
                         for k in ('return', 'error'):
                             ops.append(['reply', x, y, s, k])
@@ -190,6 +193,13 @@ class Session(BusSession):
                     self.hit('call-slot')
                 else:
                     self.hit('call-noreply')
+            self.send(x, m)
+        elif kind == 'pcall':
+            _, x, y, s = op
+            m = R.method_call(s, self.uname[y], '/c', 'c.Private', 'Do', [R.U(s)])
+            # refused on the recipient side: the caller is told, the callee sees nothing, and NO reply slot may exist
+            w(x, ('buserr', b'org.freedesktop.DBus.Error.AccessDenied', s))
+            self.hit('call-refused-by-receive-policy')
             self.send(x, m)
         elif kind == 'reply':
             _, x, y, s, k = op
